@@ -16,6 +16,7 @@ mod c08;
 mod c09;
 mod c10;
 mod c11;
+mod c13;
 mod c14;
 use std::io::Write;
 use util::*;
@@ -28,6 +29,7 @@ struct Ctx {
     dtype: String,
     c08: Option<c08::StoreCtx>,
     c19: Option<c19::C19Ctx>,
+    c13: Option<c13::HCtx>,
 }
 
 fn exec_line(ctx: &mut Ctx, line: &str) -> String {
@@ -86,6 +88,12 @@ fn exec_line(ctx: &mut Ctx, line: &str) -> String {
         "c10" => c10::exec(line),
         "c11" => c11::exec(line),
         "c14" => c14::exec(line),
+        "c13" => {
+            let (v, m) = parse_line(line);
+            if second == "cfg" { ctx.c13 = None; ctx.c13 = Some(c13::open_cfg(&m)); "ok".into() }
+            else if second == "op" { let verb = v.get(2).cloned().unwrap_or_default(); match ctx.c13.as_ref() { Some(c) => c13::exec_op(c, &verb, &m), None => "skip".into() } }
+            else { c13::exec_doc(line) }
+        }
         _ => "bad-op".into(),
     }
 }
@@ -119,6 +127,7 @@ fn main() {
                 "c10" => c10::generate(&a.tier, a.seed),
                 "c11" => c11::generate(&a.tier, a.seed),
                 "c14" => c14::generate(&a.tier, a.seed),
+                "c13" => c13::generate(&a.tier, a.seed),
                 _ => { eprintln!("unknown property {}", prop); std::process::exit(2) }
             }
         }
